@@ -403,7 +403,7 @@ func main() {
 	l := load(repo)
 	var sb strings.Builder
 	sb.WriteString("(* GENERATED by harness/cmd/vx from /repo -- do not edit *)\n")
-	sb.WriteString("From Coq Require Import List NArith.\nImport ListNotations.\n\n")
+	sb.WriteString("From Coq Require Import List NArith ZArith Bool.\nFrom CqlProxy Require Import Lib.Val.\nImport ListNotations.\nLocal Open Scope bool_scope.\n\n")
 
 	if es, ok := versionTable(l); ok {
 		emitEntries(&sb, "version_table", es)
@@ -436,6 +436,7 @@ func main() {
 	} else {
 		decline("token_enum", "no constants of type parser.token")
 	}
+	policyFuncs(l, &sb)
 	if err := os.WriteFile(os.Args[2], []byte(sb.String()), 0o644); err != nil {
 		fmt.Fprintln(os.Stderr, err)
 		os.Exit(2)
@@ -443,4 +444,8 @@ func main() {
 	for _, d := range declined {
 		fmt.Println("DECLINED " + d)
 	}
+}
+
+func constInt64(c *types.Const) (int64, bool) {
+	return constant.Int64Val(constant.ToInt(c.Val()))
 }
